@@ -18,6 +18,7 @@ import (
 	"go/ast"
 	"go/printer"
 	"go/token"
+	"sort"
 	"strconv"
 	"strings"
 
@@ -44,6 +45,7 @@ type facts struct {
 	serverNameSet          bool
 	clientCert             string
 	customVerify           bool
+	unmodelledKeys         []string
 	suitesTLS12Only        bool
 	dialCreds              []string
 	argsWired              bool
@@ -86,6 +88,8 @@ func gen(repo string, w *bytes.Buffer) error {
 	fmt.Fprintf(w, "Definition gen_client_cert : client_cert_source := %s.\n", f.clientCert)
 	fmt.Fprintf(w, "Definition gen_custom_verify : bool := %s.\n", coqBool(f.customVerify))
 	fmt.Fprintf(w, "Definition gen_suites_tls12_only : bool := %s.\n", coqBool(f.suitesTLS12Only))
+	fmt.Fprintf(w, "(* fields of the tls.Config that are set but that the decision model does not interpret (e.g. Time, Rand, KeyLogWriter, ClientSessionCache) *)\n")
+	fmt.Fprintf(w, "Definition gen_unmodelled_config_keys : list str := %s.\n", tutil.CoqTextList(f.unmodelledKeys))
 	fmt.Fprintf(w, "(* crypki.NewSigner: transport credentials among the dial options, argument wiring. *)\n")
 	fmt.Fprintf(w, "Definition gen_dial_creds : list creds_kind := %s.\n", tutil.CoqList(f.dialCreds))
 	fmt.Fprintf(w, "Definition gen_args_wired : bool := %s.\n", coqBool(f.argsWired))
@@ -254,6 +258,18 @@ func readConfig(repo string, f *facts) error {
 	_, vp := kvs["VerifyPeerCertificate"]
 	_, vc := kvs["VerifyConnection"]
 	f.customVerify = vp || vc
+	// fields the model interprets, and fields without influence on who is authenticated and how
+	interpreted := map[string]bool{"MinVersion": true, "MaxVersion": true, "InsecureSkipVerify": true, "ServerName": true,
+		"VerifyPeerCertificate": true, "VerifyConnection": true, "CipherSuites": true, "RootCAs": true,
+		"GetClientCertificate": true, "Certificates": true,
+		"NextProtos": true, "SessionTicketsDisabled": true, "Renegotiation": true, "DynamicRecordSizingDisabled": true,
+		"CurvePreferences": true, "PreferServerCipherSuites": true}
+	for k := range kvs {
+		if !interpreted[k] {
+			f.unmodelledKeys = append(f.unmodelledKeys, k)
+		}
+	}
+	sort.Strings(f.unmodelledKeys)
 
 	// ---- CipherSuites: does the list exclude every suite that exists before TLS 1.2 (the HMAC-SHA1 ones)?
 	if v, ok := kvs["CipherSuites"]; ok {
